@@ -708,6 +708,8 @@ class Run:
             if name in self.call_ptrs and not e.get('a'):
                 return self.call_ptrs[name]
             m = self.methods.get(name)
+            if m is None and self.methods.get('*') == 'interp' and (e.get('obj') is None or strip_lv(e['obj']).get('k') == 'this'):
+                m = 'interp'            # every member of the current object is interpreted from its body
             if m is not None and (e.get('obj') is None or strip_lv(e['obj']).get('k') == 'this'):
                 args = [self.val(a) for a in e.get('a', [])]
                 if callable(m):
